@@ -11,7 +11,7 @@ from inscripta.biocantor.gene.transcript import TranscriptInterval
 from inscripta.biocantor.gene.variants import VariantInterval, VariantIntervalCollection
 
 from harness.common import AND, DEQ, IFF, ITE, MINUS, NOT, OR, PLUS, GENOME40, chrom_parent, chunk_parent
-from vlib.obl import Obl
+from vlib.obl import Obl, split_cubes
 from vlib.sym import MAX, MIN, concretize, untraced
 
 META = dict(
@@ -294,6 +294,24 @@ def obligations(tier):
                                 "child guids; invalid ranges => InvalidQueryError",
                            bounds="2 members (%s, %s), unbounded symbolic coordinates/bounds/query" % kind,
                            examples=[dict(e, l1=1) if kind[1] == "vc" else e for e in (ex, dict(ex, qs=13), dict(ex, qs=0, qe=70))]))
+        # the same obligations against the EXACT bin semantics (bins() translated to z3 terms from source): no contract assumed, counterexamples
+        # replay with the real bins
+        for coding_only, within, expand in ((False, True, False), (False, False, False)):
+            if kind != ("gene", "fc") and quick:
+                continue
+            tag = "%s_%s_co%d_within%d_expand%d" % (kind[0], kind[1], coding_only, within, expand)
+            o = Obl("position_smtbins_" + tag, position_fn(kind, (True, False), coding_only, within, expand), dict(base),
+                    (lambda vc: (lambda **kw: position_pre(vc=vc, **kw)))(kind[1] == "vc"), budget=900, cost=120, stubs=dict(bins="smt"),
+                    desc="query_by_position against the exact semantics of the real bins() (z3 terms generated from its source): member returned <=> "
+                         "(strict: inside; relaxed: overlapping), for ALL integer coordinates including those in different 128 kb / 1 Mb ... bins",
+                    bounds="2 members (%s, %s), unbounded symbolic coordinates/bounds/query" % kind,
+                    examples=[ex, dict(ex, s1=131080, hi=400000, qe=131090), dict(ex, s0=30, l0=5, s1=12, l1=8), dict(ex, qs=14)])
+            if within:
+                out.extend(split_cubes(o, {"m0first": lambda **kw: kw["s0"] < kw["s1"],
+                                           "qs_le_both": lambda **kw: kw["qs"] <= kw["s0"] and kw["qs"] <= kw["s1"],
+                                           "qe_ge_both": lambda **kw: kw["qe"] >= kw["s0"] + kw["l0"] and kw["qe"] >= kw["s1"] + kw["l1"]}))
+            else:
+                out.append(o)
         if quick and kind != ("gene", "fc"):
             continue
         out.append(Obl("position_defaults_%s_%s" % kind, default_bounds_fn(kind), dict(s0=int, l0=int, s1=int, l1=int, lo=int, hi=int, qs=int),
@@ -342,6 +360,21 @@ def obligations(tier):
                    desc="collection on a sequence chunk whose chromosome offset straddles a 128 kb bin boundary: strict and relaxed queries (REAL bins) "
                         "return exactly the members inside/overlapping the range", bounds="chunk offsets 131066..131071, 2 members, query grid (realised)",
                    examples=[dict(w=131070, s0=131073, l0=4, s1=131080, l1=5, qs=131071, qe=131090)]))
+    # members CUT by the chunk edge (their chromosome span reaches outside the chunk): the strict test is about the chromosome span, not its in-chunk part
+    cutpre = lambda w, s0, l0, s1, l1, qs, qe: (w >= 4 and w - 3 <= s0 and l0 >= 1 and s0 + l0 <= s1 and l1 >= 1 and s1 + l1 <= w + 27  # noqa: E731
+                                                and s0 + l0 > w and s1 < w + 24 and (s0 < w or s1 + l1 > w + 24) and w <= qs and qs < qe and qe <= w + 24)
+    out.append(Obl("position_on_chunk_cut_members_real_bins", chunk_query_fn(False), dict(w=int, s0=int, l0=int, s1=int, l1=int, qs=int, qe=int),
+                   lambda w, s0, l0, s1, l1, qs, qe: cutpre(w, s0, l0, s1, l1, qs, qe) and w == 5 and (l0 == 2 or l0 == 5) and (l1 == 3 or l1 == 6)
+                   and (s1 - s0 - l0) % 7 == 0 and (qs - w) <= 1 and (w + 24 - qe) <= 1, budget=400, cost=60, stubs=dict(bins="real"),
+                   desc="collection on a sequence chunk whose members are cut by the chunk edge: a strict query returns a member only if its whole CHROMOSOME "
+                        "span lies in the range (the in-chunk part is irrelevant), a relaxed query if the span overlaps it (REAL bins)",
+                   bounds="chunk [5,29), 2 members reaching up to 3 nt outside on either side, queries touching the chunk edges (realised)",
+                   examples=[dict(w=5, s0=3, l0=5, s1=22, l1=6, qs=5, qe=29), dict(w=5, s0=6, l0=5, s1=25, l1=6, qs=6, qe=28)]))
+    if not quick:
+        out.append(Obl("position_on_chunk_cut_members_symbolic", chunk_query_fn(True), dict(w=int, s0=int, l0=int, s1=int, l1=int, qs=int, qe=int), cutpre,
+                       budget=3000, cost=900,
+                       desc="as position_on_chunk_cut_members_real_bins with a SYMBOLIC chunk offset and unbounded coordinates (bins contract stub)",
+                       bounds="chunk length 24, 2 members cut by either chunk edge", examples=[dict(w=100, s0=98, l0=5, s1=117, l1=9, qs=100, qe=124)]))
     if not quick:
         out.append(Obl("position_on_chunk_symbolic", chunk_query_fn(True), dict(w=int, s0=int, l0=int, s1=int, l1=int, qs=int, qe=int), cpre,
                        budget=3000, cost=900,
